@@ -589,7 +589,9 @@ def r066_loss_moment_wiring(ctx):
         ri = A.run(c2 + ".__init__", cls_ctx=c2)
         v = ri.final.heap.get((ri.self_term, "no_groups")) if ri.final else None
         ok = v is const(flag) and ri.final.heap.get((ri.self_term, "reduction_loss")) is ri.params["loss"]
-        ctx.ob("R06.6", ri.func, None, ok, f"{name} sets no_groups={flag} and keeps the given loss", construct=f"{name} constructor")
+        ub = ri.final.heap.get((ri.self_term, "upper_bound")) if ri.final else None
+        ok = ok and (ub is ri.params["upper_bound"] if name == "BoundedGroupLoss" else ub is NONE)
+        ctx.ob("R06.6", ri.func, None, ok, f"{name} sets no_groups={flag}, keeps the given loss and " + ("the given upper bound" if name == "BoundedGroupLoss" else "has no bound"), construct=f"{name} constructor")
     ce = M_ER + ":ErrorRate"
     re_ = A.run(ce + ".load_data", cls_ctx=ce)
     st = stores_attr(re_, "_index")
